@@ -175,6 +175,78 @@ def run_missing(c):
     return r
 
 
+GCLASS_SRC = '''
+from typing import Generic, TypeVar, List, Optional
+from pedantic import pedantic_class
+T = TypeVar('T'); S = TypeVar('S')
+class Plain:
+    pass
+@pedantic_class
+class G1(Generic[T]):
+    def m(self, a: T) -> T: return a
+    def n(self) -> None: return None
+    def l(self, a: List[T]) -> Optional[T]: return a[0] if a else None
+@pedantic_class
+class G2(Generic[S, T]):
+    def m(self, a: T) -> T: return a
+    def n(self) -> None: return None
+    def l(self, a: List[S]) -> Optional[S]: return a[0] if a else None
+@pedantic_class
+class SubMixed(G2[str, T], Generic[T]):
+    def k(self, a: T) -> T: return a
+@pedantic_class
+class SubTv(G1[T], Generic[T]):
+    def k(self, a: T) -> T: return a
+@pedantic_class
+class SubNoGen(G2[int, T]):
+    def k(self, a: T) -> T: return a
+@pedantic_class
+class MixinFirst(Plain, Generic[T]):
+    def m(self, a: T) -> T: return a
+    def n(self) -> None: return None
+    def k(self, a: T) -> T: return a
+@pedantic_class
+class Swapped(G2[T, S]):
+    def k(self, a: T) -> T: return a
+@pedantic_class
+class SubFixed(G1[int]):
+    def k(self, a: int) -> int: return a
+SHAPES = {'G1': (G1, (int,)), 'G2': (G2, (int, str)), 'SubMixed': (SubMixed, (int,)), 'SubTv': (SubTv, (int,)), 'SubNoGen': (SubNoGen, (str,)),
+          'MixinFirst': (MixinFirst, (int,)), 'Swapped': (Swapped, (int, str)), 'SubFixed': (SubFixed, None)}
+def make(shape):
+    cls, params = SHAPES[shape]
+    o = cls() if params is None else cls[params if len(params) > 1 else params[0]]()
+    return o
+'''
+_gclass = {}
+GCLASS_SHAPES = ['G1', 'G2', 'SubMixed', 'SubTv', 'SubNoGen', 'MixinFirst', 'Swapped', 'SubFixed']
+GCLASS_CALLS = [('m', {'a': 1}), ('m', {'a': 'x'}), ('m', {'a': None}), ('n', {}), ('k', {'a': 1}), ('k', {'a': 'x'}), ('l', {'a': [1]}), ('l', {'a': ['x', 1]}),
+                ('l', {'a': []}), ('m', {}), ('k', {'a': [1]})]
+
+
+def run_gclass(c):
+    """instances of generic @pedantic_class classes of several base layouts; only the class of the outcome is observed"""
+    if c.get('size'):
+        return {'size': len(GCLASS_SHAPES) * len(GCLASS_CALLS)}
+    if 'mod' not in _gclass:
+        _gclass['mod'] = make_module(GCLASS_SRC, {})
+    mod = _gclass['mod']
+    shape = GCLASS_SHAPES[c['i'] // len(GCLASS_CALLS)]
+    meth, kw = GCLASS_CALLS[c['i'] % len(GCLASS_CALLS)]
+    r = {'name': f'{shape}.{meth}({kw})'}
+
+    def call():
+        o = mod.make(shape)
+        f = getattr(o, meth, None)
+        if f is None:
+            return None
+        return f(**kw)
+    r['out'], r['exc'] = outcome(call)
+    if r['out'] == 4 and r['exc'].startswith('TypeError') and 'missing 1 required' in r['exc']:
+        r['out'] = 0      # Python's own rejection of the call (argument missing): not from the checking machinery
+    return r
+
+
 _named = {}
 
 
@@ -233,6 +305,8 @@ def main():
         try:
             if c.get('obs') == 'zoo_sizes':
                 r = {'sizes': zoo_sizes()}
+            elif c.get('obs') == 'gclass':
+                r = run_gclass(c)
             elif c.get('obs') == 'named':
                 r = run_named(c)
             elif c.get('obs') == 'missing':
